@@ -16,9 +16,9 @@ import (
 // fragConn is an in-memory net.Conn whose Read delivers the input in caller-chosen fragments
 // and whose Write collects the output.
 type fragConn struct {
-	mu    sync.Mutex
-	frags [][]byte
-	out   bytes.Buffer
+	mu     sync.Mutex
+	frags  [][]byte
+	out    bytes.Buffer
 	closed bool
 }
 
